@@ -480,6 +480,9 @@ func genDecl(r *rand.Rand, id int) *DeclScn {
 			kvs = append(kvs, [2]string{"description", pick(r, tagValues)})
 		}
 		fno++
+		if chance(r, 0.06) {
+			kvs = append(kvs, [2]string{"no-flag", pick(r, []string{"1", "yes"})}) // the whole struct is left out
+		}
 		return FieldSpec{Name: toS("G" + itoa(fno)), FType: "group", Tag: toS(joinTag(r, kvs)), Sub: sub}
 	}
 	var genPos func() FieldSpec
@@ -516,6 +519,9 @@ func genDecl(r *rand.Rand, id int) *DeclScn {
 			kvs = append(kvs, [2]string{"hidden", "1"})
 		}
 		fno++
+		if chance(r, 0.06) {
+			kvs = append(kvs, [2]string{"no-flag", pick(r, []string{"1", "yes"})}) // the whole struct is left out
+		}
 		return FieldSpec{Name: toS("C" + itoa(fno)), FType: "command", Tag: toS(joinTag(r, kvs)), Sub: sub}
 	}
 	genPos = func() FieldSpec {
@@ -534,7 +540,7 @@ func genDecl(r *rand.Rand, id int) *DeclScn {
 				ft = "strs"
 			}
 			if chance(r, 0.5) {
-				kvs = append(kvs, [2]string{"required", pick(r, []string{"yes", "1", "2", "1-3", "0-1", "10", "true", "0"})})
+				kvs = append(kvs, [2]string{"required", pick(r, []string{"yes", "1", "2", "1-3", "0-1", "10", "true", "0", "-2", "2-", "-", "1--3", "+1", "1-+2", "x-2", "1-x", "--", "007", "3-1"})})
 			}
 			sub = append(sub, FieldSpec{Name: toS("A" + itoa(fno)), FType: ft, Tag: toS(joinTag(r, kvs)), Sub: []FieldSpec{}})
 		}
@@ -543,6 +549,9 @@ func genDecl(r *rand.Rand, id int) *DeclScn {
 			kvs = append(kvs, [2]string{"required", "yes"})
 		}
 		fno++
+		if chance(r, 0.06) {
+			kvs = append(kvs, [2]string{"no-flag", pick(r, []string{"1", "yes"})}) // the whole struct is left out
+		}
 		return FieldSpec{Name: toS("P" + itoa(fno)), FType: "posargs", Tag: toS(joinTag(r, kvs)), Sub: sub}
 	}
 	for chance(r, 0.5) && len(sc.Fields) < 8 {
